@@ -33,6 +33,7 @@ from black_it.search_space import SearchSpace
 from black_it.utils.base import _assert
 from black_it.utils.json_pandas_checkpointing import (
     load_calibrator_state,
+    load_samplers_id_table,
     save_calibrator_state,
 )
 from black_it.utils.seedable import BaseSeedable
@@ -318,6 +319,12 @@ class Calibrator(BaseSeedable):
         # reset the random number generator state
         calibrator.random_generator.bit_generator.state = random_generator_state
 
+        # the ids stored in method_samp refer to the table of the saved calibrator, which may
+        # contain samplers that were replaced later on: do not rebuild it from the current ones
+        samplers_id_table = load_samplers_id_table(checkpoint_path)
+        if samplers_id_table is not None:
+            calibrator.samplers_id_table = samplers_id_table
+
         return calibrator
 
     def simulate_model(self, params: NDArray) -> NDArray:
@@ -526,6 +533,7 @@ class Calibrator(BaseSeedable):
             self.series_samp,
             self.batch_num_samp,
             self.method_samp,
+            samplers_id_table=self.samplers_id_table,
         )
 
         t_end = time.time()
